@@ -22,10 +22,6 @@ theorem setPath_self (s : State) (p : String) : setPath s p (s.paths p) = s := b
     · rename_i h; rw [h]
     · rfl
 
-theorem metaOr_some (ps : PathSt) (m : Meta) (h : ps.md = some m) : metaOr ps = m := by unfold metaOr; rw [h]
-
-theorem metaOr_none (ps : PathSt) (h : ps.md = none) : metaOr ps = freshMeta := by unfold metaOr; rw [h]
-
 /-! ### the current version number -/
 
 theorem writeOutcome_cur (ps ps' : PathSt) (m : Meta) (d : Data) (del : Del) (c : Nat) (r : Resp)
@@ -104,15 +100,15 @@ theorem destroyVersions_cur (ps : PathSt) (vs : List Int) : (metaOr (destroyVers
     rw [metaOr_some ps m hm, metaOr_some _ _ rfl]
     exact (foldl_flagStep _ markDestroyed_flagStep vs m).cur
 
-theorem metaWrite_cur (cfg : Config) (ps : PathSt) (mx : Option Int) (cr dva : Option Bool) :
-    (metaOr (metaWrite cfg ps mx cr dva).1).current = (metaOr ps).current := by
-  unfold metaWrite
-  split
-  · rfl
-  · rw [metaOr_some _ _ rfl]
-    cases hmd : ps.md with
-    | none => rw [metaOr_none ps hmd]; cases mx <;> cases cr <;> cases dva <;> rfl
-    | some m0 => rw [metaOr_some ps m0 hmd]; cases mx <;> cases cr <;> cases dva <;> rfl
+theorem settingsShape_cur (ps ps' : PathSt) (r : Resp) (sh : SettingsShape ps ps' r) :
+    (metaOr ps').current = (metaOr ps).current := by
+  rcases sh with e | ⟨m', e, sv, _⟩
+  · rw [e]
+  · rw [e, metaOr_some _ m' rfl, sv.cur]
+
+theorem settingsShape_not_wrote (ps ps' : PathSt) (r : Resp) (sh : SettingsShape ps ps' r) (hr : r = .nil ∨ r = .warn ∨ (∃ e, r = .err e) ∨ r = .notFound) :
+    r.isWrote = false := by
+  rcases hr with h | h | ⟨e, h⟩ | h <;> rw [h] <;> rfl
 
 theorem metaDelete_cur (ps : PathSt) : (metaOr (metaDelete ps)).current = 0 := by
   unfold metaDelete; split
@@ -178,10 +174,15 @@ theorem stepF_curVer (tx : Bool) (fault : Option Nat) (s : State) (op : Op) (p :
       by_cases hq : p = q
       · subst hq; simp [destroyVersions_cur]
       · simp [hq]
-  | metaWrite q mx cr dva =>
+  | metaWrite q a =>
     simp only [stepF, Op.writesTo, setPath_paths]
     by_cases hq : p = q
-    · subst hq; simp [metaWrite_cur]
+    · subst hq; simp [settingsShape_cur _ _ _ (metaWrite_shape s.cfg (s.paths p) a)]
+    · simp [hq]
+  | metaPatch q a =>
+    simp only [stepF, Op.writesTo, setPath_paths]
+    by_cases hq : p = q
+    · subst hq; simp [settingsShape_cur _ _ _ (metaPatch_shape s.cfg (s.paths p) a)]
     · simp [hq]
   | metaRead q => simp [stepF, Op.writesTo]
   | metaDelete q =>
@@ -218,8 +219,12 @@ theorem stepF_wrote (tx : Bool) (fault : Option Nat) (s : State) (op : Op) (v : 
   | deleteV q vs => simp only [stepF] at h; split at h <;> cases h
   | undelete q vs => simp only [stepF] at h; split at h <;> cases h
   | destroy q vs => simp only [stepF] at h; split at h <;> cases h
-  | metaWrite q mx cr dva =>
+  | metaWrite q a =>
     simp only [stepF, metaWrite] at h
+    repeat' split at h
+    all_goals cases h
+  | metaPatch q a =>
+    simp only [stepF, metaPatch] at h
     repeat' split at h
     all_goals cases h
   | metaRead q => simp only [stepF, metaRead] at h; split at h <;> cases h
